@@ -40,7 +40,7 @@ class MyErr(Exception):
     pass
 
 
-def make_harness(n_ext, max_events, n_handlers, max_depth, flushes, allow_stop, allow_reflush=False, sym_handler_prio=True, allow_raise=False):
+def make_harness(n_ext, max_events, n_handlers, max_depth, flushes, allow_stop, allow_reflush=False, sym_handler_prio=True, allow_raise=False, two_channels=False):
     def harness(g):
         log = []          # (event_name, handler_idx, flush_idx)
         events = {}       # name -> dict(prio, seq, depth, fired_flush, obj)
@@ -53,19 +53,23 @@ def make_harness(n_ext, max_events, n_handlers, max_depth, flushes, allow_stop, 
             else:
                 hprio.append(0)
 
+        # with two_channels every event goes to the channels ('a', 'b') and each handler listens on one of them
+        CH = ('a', 'b') if two_channels else ()
+        hchan = [g.pick('hchan%d' % j, ['a', 'b']) if two_channels else None for j in range(n_handlers)]
+
         def fire_event(comp, name, depth):
             if g.flag('dflt_%s' % name):
                 prio = 0
                 e = ev(name)
                 events[name] = {'prio': prio, 'seq': len(order), 'depth': depth, 'fired_flush': state['flush'], 'obj': e}
                 order.append(name)
-                comp.fire(e)
+                comp.fire(e, *CH)
             else:
                 prio = g.real('p_%s' % name)
                 e = ev(name)
                 events[name] = {'prio': prio, 'seq': len(order), 'depth': depth, 'fired_flush': state['flush'], 'obj': e}
                 order.append(name)
-                comp.fire(e, priority=prio)
+                comp.fire(e, *CH, priority=prio)
             state['before_return_depth'] = state['depth']
 
         def body(self, j, event, name):
@@ -113,6 +117,8 @@ def make_harness(n_ext, max_events, n_handlers, max_depth, flushes, allow_stop, 
                 def h(self, event, name):
                     body(self, j, event, name)
                 h.__name__ = 'h%d' % j
+                if two_channels:
+                    return handler('ev', priority=hprio[j], channel=hchan[j])(h)
                 return handler('ev', priority=hprio[j])(h)
             ns['h%d' % j] = mk(j)
         def on_exc(self, etype, evalue, tb, handler=None, fevent=None):
@@ -158,6 +164,18 @@ def make_harness(n_ext, max_events, n_handlers, max_depth, flushes, allow_stop, 
             else:
                 if not set(queued) <= set(seq):
                     g.fail('lost-event', w, 'queued %s dispatched %s' % (queued, seq))
+                    raise_end()
+            # an event fired by a handler during this pass never overtakes one that was queued when the pass began
+            # (also when the handler re-enters the dispatcher with flush())
+            first = {}
+            for i, (n, j, fl) in enumerate(batch_log):
+                first.setdefault(n, i)
+            for m in seq:
+                if m in queued:
+                    continue
+                late = [n for n in queued if n in first and first[n] > first[m]]
+                if late:
+                    g.fail('fired-in-pass-overtakes-queued', w, 'event %s fired during the pass ran before %s; log %s' % (m, late, batch_log[:12]))
                     raise_end()
             # contiguous handler blocks per event, each event once
             blocks = []
@@ -260,6 +278,9 @@ def parts(tier):
             Part('handler-stop-raise', make_harness(n_ext=1, max_events=1, n_handlers=3, max_depth=0, flushes=1, allow_stop=True, allow_raise=True),
                  bounds={'external_events_first_pass': 1, 'max_events': 1, 'handlers': 3, 'nesting_depth': 0, 'flushes': 1, 'actions': 'none/stop/raise/stop+raise'},
                  encoded=ENC, clauses=['handler-order', 'stop-ignored', 'stop-suppressed-higher', 'handler-missing'], budget_s=70),
+            Part('two-channels', make_harness(n_ext=1, max_events=1, n_handlers=3, max_depth=0, flushes=1, allow_stop=True, two_channels=True),
+                 bounds={'events': 1, 'handlers': 3, 'channels': "event fired to ('a','b'); each handler on 'a' or 'b'", 'stop': True},
+                 encoded=ENC + [M.Manager.getHandlers], budget_s=40),
             Part('recursive-flush', make_harness(n_ext=2, max_events=4, n_handlers=1, max_depth=2, flushes=2, allow_stop=False, allow_reflush=True),
                  bounds={'external_events_first_pass': 2, 'max_events': 4, 'handlers': 1, 'nesting_depth': 2, 'flushes': 2, 'recursive_flush': 1},
                  encoded=ENC[:-1], clauses=['lost-event', 'reentrant-dispatch'], budget_s=60),
@@ -274,6 +295,9 @@ def parts(tier):
         Part('handler-stop-raise', make_harness(n_ext=2, max_events=3, n_handlers=4, max_depth=0, flushes=1, allow_stop=True, allow_raise=True),
              bounds={'external_events_first_pass': 2, 'max_events': 3, 'handlers': 4, 'nesting_depth': 0, 'flushes': 1, 'actions': 'none/stop/raise/stop+raise'},
              encoded=ENC, budget_s=900),
+        Part('two-channels', make_harness(n_ext=2, max_events=3, n_handlers=4, max_depth=1, flushes=2, allow_stop=True, two_channels=True),
+             bounds={'events': 3, 'handlers': 4, 'channels': "event fired to ('a','b'); each handler on 'a' or 'b'", 'stop': True},
+             encoded=ENC + [M.Manager.getHandlers], budget_s=600),
         Part('recursive-flush', make_harness(n_ext=3, max_events=5, n_handlers=1, max_depth=2, flushes=2, allow_stop=False, allow_reflush=True),
              bounds={'external_events_first_pass': 3, 'max_events': 5, 'handlers': 1, 'nesting_depth': 2, 'flushes': 2, 'recursive_flush': 1},
              encoded=ENC[:-1], budget_s=600),
